@@ -38,14 +38,14 @@ class Check(CheckBase):
     def generate(self):
         quick = self.tier == 'quick'
         cases = []
-        n = 40 if quick else 400
+        n = 40 if quick else 1200
         for i in range(n):
             r = random.Random(f'C11/{self.seed}/{i}')
             mx = [64, 128, 256][i % 3]
             mn = r.choice([1, 4, mx // 16, mx // 32 or 1, 3, 5, 7, mx // 16 - 1, mx // 16 - 3])
             cases.append({'kind': 'streams', 'min': mn, 'max': mx, 'seed': r.randrange(1 << 30),
                           'pairs': 16})
-        for i in range(6 if quick else 40):
+        for i in range(6 if quick else 120):
             r = random.Random(f'C11/{self.seed}/repo/{i}')
             cases.append({'kind': 'repo', 'min': r.choice([4, 8]), 'max': r.choice([64, 128]),
                           'seed': r.randrange(1 << 30), 'encrypted': i % 2 == 0})
